@@ -18,7 +18,7 @@ func init() {
 	fw.Register(&fw.Prop{
 		ID:       "C13",
 		Rule:     "the mixed value corpus of C06 (controller messages, switch messages and records, packets, DHCP, LLDP). For every recipe, fresh values are built and put through every history over {size query, encode} of length 1..4 (30 histories) plus PRNG histories of length 5..12; all size answers must be equal, all encodings byte-equal, across histories too; children's standalone encodings must be the same before and after their container was sized and encoded twice. distinct = hash(mode, recipe without xid); non-trivial = the value has at least one nested element",
-		NumCases: func(tier string, seed uint64) int { return nCases(tier, 24000, 6000000) },
+		NumCases: func(tier string, seed uint64) int { return nCases(tier, 60000, 6000000) },
 		Gen: func(tier string, seed uint64, i int) any {
 			if i%16 == 9 { // hand-built packet values with derived fields left unset (still encodable values)
 				r := prng.Derive(seed, 1300, uint64(i))
